@@ -332,6 +332,10 @@ impl<'a, 'e, T: IteTable<'a, BddPtr<'a>> + Default> Sw<'a, 'e, T> {
 
     /// issue one operation on the real builder and check it
     fn issue(&mut self, op: Op) -> Option<BddPtr<'a>> {
+        // another object of the library is created, used and dropped on this thread now and then
+        if self.opno % 509 == 17 {
+            crate::props::bddutil::interloper((self.opno / 509) as usize);
+        }
         let n = self.n;
         let b = self.b;
         let p = |s: &Self, t: TT| -> BddPtr<'a> { s.ptr_of(t) };
@@ -701,6 +705,54 @@ fn sweep<'a, 'e, T: IteTable<'a, BddPtr<'a>> + Default>(
         }
         s.recheck_pool();
     }
+    // A(f), D(degenerate operand), B(f): two conditioning / quantification operations on one function with
+    // the same kind of operation on a constant or a literal in between. A call on a degenerate operand takes
+    // the early exits of the implementation; whatever bookkeeping (a tag, a "current variable", a memo that
+    // is cleared on one path only) it leaves half-updated meets B
+    if !s.stop && total <= 256 && !crate::core::disabled("adb") {
+        let have: std::collections::HashSet<usize> = perm.iter().cloned().collect();
+        let m = tt::mask(n);
+        let mut degenerate: Vec<Op> = Vec::new();
+        for v in 0..n {
+            let other = (v + 1) % n;
+            for c in [if v % 2 == 0 { m } else { 0 as TT }, if v % 2 == 0 { tt::var(other, n) } else { tt::var(v, n) }] {
+                if !have.contains(&(c as usize)) {
+                    continue;
+                }
+                degenerate.push(Op::Cond(c, v, true));
+                degenerate.push(Op::Cond(c, v, false));
+                degenerate.push(Op::Exists(c, v));
+            }
+        }
+        // (quick: every 2th function, rotating with the configuration)
+        let astep = if ctx.tier == Tier::Quick { 2 } else { 1 };
+        'adb: for &i in perm.iter().skip(cfg.issue % astep).step_by(astep) {
+            let x = i as TT;
+            let mut ops: Vec<Op> = Vec::new();
+            for v in 0..n {
+                ops.push(Op::Cond(x, v, true));
+                ops.push(Op::Cond(x, v, false));
+                ops.push(Op::Exists(x, v));
+            }
+            for a in ops.iter() {
+                for d in degenerate.iter() {
+                    for b in ops.iter() {
+                        s.issue(a.clone());
+                        s.issue(d.clone());
+                        s.issue(b.clone());
+                    }
+                }
+                if s.stop {
+                    break 'adb;
+                }
+            }
+            if ctx.over_time() || ctx.over_mem() {
+                s.rep.cap("wall-clock or memory cap inside the A-D-B triples");
+                break;
+            }
+        }
+        s.recheck_pool();
+    }
     // compose: all f x v x g
     if !s.stop {
         'c: for &i in perm.iter() {
@@ -880,6 +932,13 @@ fn sweep<'a, 'e, T: IteTable<'a, BddPtr<'a>> + Default>(
                     if got != xl {
                         s.viol("C01", "wrong-function", format!("new_var({}) denotes {:#x}", pol, got), &op0);
                     }
+                    // both literals of the run-time variable requested through var() afterwards (the pointer
+                    // new_var returned is one thing, what the builder hands out for the label later another)
+                    for pol2 in [true, false] {
+                        let want = tt::lit(newv, pol2, n2);
+                        let res = guarded(|| b.var(VarLabel::new(want_label as u64), pol2));
+                        s.check(res, want, &Op::Materialise(want));
+                    }
                     s.recheck_pool();
                     // binary / ternary operations mixing old functions and the new variable
                     for &i in perm.iter() {
@@ -902,6 +961,14 @@ fn sweep<'a, 'e, T: IteTable<'a, BddPtr<'a>> + Default>(
                                 }
                                 let rr = guarded(|| b.exists(r, VarLabel::new(want_label as u64)));
                                 s.check(rr, tt::exists(want, newv, n2), &Op::Exists(want, newv));
+                                // ... and substituted by an old function (compose asks the builder for the
+                                // variable's literal internally)
+                                for &j in perm.iter().step_by(29) {
+                                    let y = tt::extend(j as TT, cfg.n, n2);
+                                    let py = s.f[j];
+                                    let rr = guarded(|| b.compose(r, VarLabel::new(want_label as u64), py));
+                                    s.check(rr, tt::compose_def(want, newv, y, n2), &Op::Compose(want, newv, y));
+                                }
                                 // second level: the result (which mentions the new variable below the old
                                 // last level) combined again with old functions - every old literal and a
                                 // slice of the others (anything the builder remembered about "the last
